@@ -110,11 +110,21 @@ def run(R, tier, seed, driver_ok):
                     if is_int.any() and (~is_int).any():
                         pidx[:, 0] = rng.choice(np.nonzero(is_int)[0], size=nq)
                         pidx[:, 1] = rng.choice(np.nonzero(~is_int)[0], size=nq)
-                xi = rng.randint(0, len(pool), size=nq)
+                xi = zoo.index_pattern(rng, len(pool), nq)      # (runs, sorted bootstraps, repeats with skips, constants, …)
+                nq = len(xi)
+                pidx = np.vstack([pidx, pidx])[:nq] if len(pidx) < nq else pidx[:nq]
+                if rng.rand() < 0.6:
+                    colp = zoo.index_pattern(rng, len(pool), nq)
+                    if len(colp) == nq:
+                        pidx = pidx.copy(); pidx[:, int(rng.randint(2))] = colp
                 checks = [('transform', (xi,), (pool[xi],)), ('pair_distance', (pidx,), (pool[pidx],)),
                           ('pair_score', (pidx,), (pool[pidx],)), ('score_pairs', (pidx,), (pool[pidx],))]
                 if t is not None:
                     tidx = rng.randint(0, len(pool), size=(nq, t))
+                    if rng.rand() < 0.6:
+                        colp = zoo.index_pattern(rng, len(pool), nq)
+                        if len(colp) == nq:
+                            tidx[:, int(rng.randint(t))] = colp
                     yq = np.array([1, -1] * nq)[:nq]
                     checks += [('decision_function', (tidx,), (pool[tidx],)), ('predict', (tidx,), (pool[tidx],))]
                     checks += [('score', (tidx, yq), (pool[tidx], yq)) if name in zoo.PAIRS else ('score', (tidx,), (pool[tidx],))]
@@ -144,7 +154,7 @@ def run(R, tier, seed, driver_ok):
                         if calls2 - calls1 != width:
                             R.broken('correspondence:C05:call-count', f'{name}.{m}: preprocessor called {calls2 - calls1}× on indices, model predicts {width}', case)
                 if name in zoo.PAIRS:
-                    yv = np.array([1, -1, 1, -1, 1, -1, 1])
+                    yv = np.array([1, -1] * nq)[:nq]
                     est.calibrate_threshold(pidx, yv); t1 = est.threshold_
                     est.calibrate_threshold(pool[pidx], yv); t2 = est.threshold_
                     R.case(('c05', name, kind, 'calibrate_threshold', X.tobytes().hex()[:32]), True, branch=f'calibrate_threshold:{kind}')
